@@ -167,7 +167,59 @@ def run_one(arr, emb, common_sel, use_counts, map_kind, rb, in_minimal, acc, ext
         return True
     if out.tolist() != exp_out:
         acc.violation("roundtrip:values", case, "got %r expected %r (index=%r)" % (out.tolist(), exp_out, idx))
+        return True
+    if rb == "default" and not in_minimal and arr.size and arr.ndim <= 2 and all(-2 ** 63 <= int(x) < 2 ** 63 for x in numpy.asarray(expected).flat) and -2 ** 63 <= int(idx.common) < 2 ** 62:
+        afterlife(idx, numpy.asarray(expected, dtype=object), acc, case)
     return True
+
+
+def afterlife(idx, expected, acc, case):
+    """The index goes on living in an application: it is read in full, appended to another index, copied from, partly emptied and re-expressed -
+    and after each step it must still convert back to the array it now stands for."""
+    from catii.iindexes import iindex
+
+    def same(tag, exp):
+        try:
+            got = idx.to_array().tolist()
+        except Exception as e:  # noqa
+            acc.violation("afterlife:to_array-raised", dict(case, after=tag), repr(e))
+            return False
+        if got != exp.tolist():
+            acc.violation("afterlife:values", dict(case, after=tag), "after %s the index converts to %r, expected %r" % (tag, got, exp.tolist()))
+            return False
+        return True
+
+    try:
+        cur = expected.copy()
+        idx.to_dict(force=True)
+        list(idx.items(force=True))
+        # (1) handed to another index's append, twice
+        for _ in range(2):
+            head = M.build_index(numpy.array(cur[:1].tolist(), dtype=numpy.int64), int(idx.common))   # (built directly: from_array would send huge values through bincount)
+            head.append(idx)
+            if head.to_array().tolist() != numpy.concatenate([cur[:1], cur]).tolist():
+                acc.violation("afterlife:values", dict(case, after="append (receiver)"), "the receiver converts to %r" % (head.to_array().tolist(),))
+                return
+            if not same("being appended to another index", cur):
+                return
+        # (2) an entry emptied completely, then the index re-expressed under another common value
+        keys = sorted(dict.keys(idx), key=repr)
+        if keys:
+            k = keys[0]
+            rows = numpy.array(dict.__getitem__(idx, k), copy=True)
+            idx.difference_update({k: rows})
+            cur = cur.copy()
+            cur[(rows.astype(numpy.int64).tolist(),) + tuple(k[1:])] = idx.common
+            if not same("difference_update of a whole entry", cur):
+                return
+        present = sorted(set(int(x) for x in cur.flat) | {int(idx.common)})
+        idx.shift_common(present[-1] + 1)
+        if not same("shift_common to an absent value", cur):
+            return
+        idx.shift_common()
+        same("shift_common()", cur)
+    except Exception as e:  # noqa
+        acc.violation("afterlife:raised", case, repr(e))
 
 
 def run_layout(ea, arr_in, emb, cs, mk, rb, lname, acc):
